@@ -17,6 +17,7 @@ import (
 	"context"
 	"encoding/json"
 	"fmt"
+	"google.golang.org/protobuf/proto"
 	"io"
 	"os"
 	"strconv"
@@ -45,7 +46,7 @@ const chainKey = "x-chain"
 type obsRpc struct {
 	C    int           `json:"c"`
 	Kind string        `json:"kind"` // unary | bidi | cs | ss
-	Out  string        `json:"out"`  // ok herr cancel precancel deadline cread cwrite cwmid swrite dead
+	Out  string        `json:"out"`  // ok herr cancel precancel deadline cread cwrite cwmid swrite dead badreq badreply
 	Herr string        `json:"herr"` // out=herr: "status" (default) | "eof" (the handler returns io.EOF)
 	Code int           `json:"code"` // out=herr: status code
 	N    int           `json:"n"`    // streams: messages exchanged before the outcome
@@ -61,7 +62,9 @@ type obsScen struct {
 	SH    int      `json:"sh"`    // server stats handlers
 	Mods  string   `json:"mods"`  // which values the stages rewrite: m(etadata) q(request) r(eply) e(rror)
 	Rpcs  []obsRpc `json:"rpcs"`
-	EOF   bool     `json:"eof"` // the client's failing reads report io.EOF (a peer that closed a pipe / socket cleanly)
+	EOF   bool     `json:"eof"`   // the client's failing reads report io.EOF (a peer that closed a pipe / socket cleanly)
+	Retry int      `json:"retry"` // k+1: server stage k calls its handler a second time after it came back (0: none)
+	Deny  int      `json:"deny"`  // k+1: server stage k returns PermissionDenied without calling its handler (0: none)
 }
 
 type obsW struct {
@@ -69,6 +72,7 @@ type obsW struct {
 	mu   sync.Mutex
 	ntag int
 	rpcs map[int]*obsRpc
+	runs map[int]int // stream handler invocations per RPC
 }
 
 func (w *obsW) mod(b byte) bool { return strings.IndexByte(w.sc.Mods, b) >= 0 }
@@ -207,6 +211,11 @@ func (w *obsW) sUnary(i int) grpc.UnaryServerInterceptor {
 			ch2 = ch + mark("s", i)
 			ctx2 = metadata.NewIncomingContext(ctx, withChain(md, ch2))
 		}
+		if w.sc.Deny == i+1 {
+			err := status.Error(codes.PermissionDenied, "deny")
+			tr.emit(obsEv("IcptExit", c, i, "s", "unary", errTok(err), "-"))
+			return nil, err
+		}
 		req2 := w.markMsg(req, "s", i, w.mod('q'))
 		tr.emit(obsEv("IcptCall", c, i, "s", "unary", ch2, msgTok(req2)))
 		resp, err := h(ctx2, req2)
@@ -215,6 +224,15 @@ func (w *obsW) sUnary(i int) grpc.UnaryServerInterceptor {
 			rt = msgTok(resp)
 		}
 		tr.emit(obsEv("IcptBack", c, i, "s", "unary", errTok(err), rt))
+		if w.sc.Retry == i+1 { // once more, through the same handler value
+			tr.emit(obsEv("IcptCall", c, i, "s", "unary", ch2, msgTok(req2)))
+			resp, err = h(ctx2, req2)
+			rt = "-"
+			if err == nil {
+				rt = msgTok(resp)
+			}
+			tr.emit(obsEv("IcptBack", c, i, "s", "unary", errTok(err), rt))
+		}
 		if err == nil {
 			resp = w.markMsg(resp, "s", i, w.mod('r'))
 			rt = msgTok(resp)
@@ -265,9 +283,19 @@ func (w *obsW) sStream(i int) grpc.StreamServerInterceptor {
 			ch2 = ch + mark("s", i)
 			ctx2 = metadata.NewIncomingContext(ctx, withChain(md, ch2))
 		}
+		if w.sc.Deny == i+1 {
+			err := status.Error(codes.PermissionDenied, "deny")
+			tr.emit(obsEv("IcptExit", c, i, "s", "stream", errTok(err), "-"))
+			return err
+		}
 		tr.emit(obsEv("IcptCall", c, i, "s", "stream", ch2, "-"))
 		err := h(srv, &obsSS{ServerStream: ss, ctx: ctx2, w: w, i: i, c: c})
 		tr.emit(obsEv("IcptBack", c, i, "s", "stream", errTok(err), "-"))
+		if w.sc.Retry == i+1 {
+			tr.emit(obsEv("IcptCall", c, i, "s", "stream", ch2, "-"))
+			err = h(srv, &obsSS{ServerStream: ss, ctx: ctx2, w: w, i: i, c: c})
+			tr.emit(obsEv("IcptBack", c, i, "s", "stream", errTok(err), "-"))
+		}
 		err2 := w.markErr(err, "s", i)
 		tr.emit(obsEv("IcptExit", c, i, "s", "stream", errTok(err2), "-"))
 		return err2
@@ -394,7 +422,7 @@ func (w *obsW) rpcOf(ctx context.Context) (int, string, *obsRpc) {
 // outcome is how the handler ends once the exchange is over.
 func (w *obsW) outcome(ctx context.Context, r *obsRpc) error {
 	switch r.Out {
-	case "ok", "swrite":
+	case "ok", "swrite", "badreply", "badreq":
 		return nil
 	case "herr":
 		if r.Herr == "eof" {
@@ -423,7 +451,10 @@ func (w *obsW) unaryHandler(srv any, ctx context.Context, dec func(any) error, i
 		rt := "-"
 		if err == nil {
 			resp = &wrapperspb.BytesValue{Value: []byte("r")}
-			rt = "r"
+			if r.Out == "badreply" { // bytes the caller's reply type (a proto3 string) cannot take
+				resp = &wrapperspb.BytesValue{Value: []byte("\xffr")}
+			}
+			rt = msgTok(resp)
 		}
 		tr.emit(obsEv("HandlerRet", c, 0, "", "unary", errTok(err), rt))
 		return resp, err
@@ -454,7 +485,14 @@ func (w *obsW) streamHandler(kind string) grpc.StreamHandler {
 			tr.emit(obsEv("HSend", c, 0, "", "", "", p))
 			return ss.SendMsg(&wrapperspb.BytesValue{Value: []byte(p)})
 		}
+		w.mu.Lock()
+		w.runs[c]++
+		again := w.runs[c] > 1 // called once more by a retrying stage: the exchange is over, only the outcome is left
+		w.mu.Unlock()
 		err := func() error {
+			if again {
+				return w.outcome(ctx, r)
+			}
 			switch kind {
 			case "bidi":
 				for k := 1; k <= r.N; k++ {
@@ -522,11 +560,17 @@ func (w *obsW) call(ctx context.Context, cc *goat.ClientConn, r *obsRpc) {
 	}
 	_, ch := outInfo(ctx)
 	if r.Kind == "unary" {
-		e := obsEv("Call", r.C, 0, "", "unary", ch, "q")
+		var req, reply proto.Message = &wrapperspb.BytesValue{Value: []byte("q")}, new(wrapperspb.BytesValue)
+		switch r.Out {
+		case "badreq": // a message the codec refuses (invalid UTF-8 in a proto3 string)
+			req, dl = &wrapperspb.StringValue{Value: "\xff"}, "bq"
+		case "badreply": // the handler's reply does not decode into what the caller expects
+			reply, dl = new(wrapperspb.StringValue), "br"
+		}
+		e := obsEv("Call", r.C, 0, "", "unary", ch, msgTok(req))
 		e.X = dl
 		tr.emit(e)
-		reply := new(wrapperspb.BytesValue)
-		err := cc.Invoke(ctx, "/"+obsSvc+"/Unary", &wrapperspb.BytesValue{Value: []byte("q")}, reply)
+		err := cc.Invoke(ctx, "/"+obsSvc+"/Unary", req, reply)
 		rt := "-"
 		if err == nil {
 			rt = msgTok(reply)
@@ -596,7 +640,7 @@ func runObservers(t *testing.T, sc *Scenario, raw []byte) {
 		t.Fatalf("verif-harness: observers scenario: %v", err)
 	}
 	synctest.Test(t, func(t *testing.T) {
-		w := &obsW{sc: &os_, rpcs: map[int]*obsRpc{}}
+		w := &obsW{sc: &os_, rpcs: map[int]*obsRpc{}, runs: map[int]int{}}
 		for i := range os_.Rpcs {
 			w.rpcs[os_.Rpcs[i].C] = &os_.Rpcs[i]
 		}
